@@ -1799,7 +1799,7 @@ impl CaServer {
 		tls: Option<Arc<openssl::ssl::SslAcceptor>>,
 		gate: Option<Gate>,
 	) -> CaServer {
-		let listener = TcpListener::bind("127.0.0.1:0").unwrap();
+		let listener = super::bind_local();
 		let port = listener.local_addr().unwrap().port();
 		let scheme = if tls.is_some() { "https" } else { "http" };
 		let host = cfg_str(cfg, "url_host", "127.0.0.1");
